@@ -37,6 +37,9 @@ def run(ctx, rep):
     # P6: under every parameter vector analysis and reconstruction drive the shared predictor with the same state
     # operations at the same points of the correction stream (the mirror-image mechanism the property rests on)
     c02.m1s(F, rep, "P6")
+    # P7: the hop count written under any parameter vector names the same chain entry when it is read back
+    from . import sib
+    sib.m4(F, rep, "P7")
 
 
 def _written_values(F, wb, t):
